@@ -425,6 +425,13 @@ func checkC06(c *Ctx) {
 			{Path: "甲.zn", Data: widen([]byte("如果 真：\n\t" + def + "\t令果 = （加一：1）\n令旁 = 1\n"))}}})
 		idx = append(idx, len(hps)-1)
 		hps[len(hps)-1].want = "error:42"
+		// … and neither is one written inside the module's own 拦截 block (which has run and ended
+		// by the time the importer goes on)
+		hps = append(hps, hp{"def-in-module-handler/not-exported", "", "error:42"})
+		hreqs = append(hreqs, Req{Op: "exec", Main: "main.zn", EvalBudget: 20000, ParseBudget: 20000, Files: []File{
+			{Path: "main.zn", Data: widen([]byte("导入“甲”\n输出（加一：1）\n"))},
+			{Path: "甲.zn", Data: widen([]byte("令旁 = 1 / 0\n\n拦截异常：\n\t" + def + "\t（显示：（加一：1））\n"))}}})
+		idx = append(idx, len(hps)-1)
 		c.runBatches(hreqs, 10, func(r int, req *Req, resp *Resp) {
 			c.Eval()
 			h := hps[idx[r]]
